@@ -115,6 +115,11 @@ func (h *Heaper) heapGet(st *State, f Family) *Term {
 // stored reference points to an object that exists too (refs are never forged, allocation is monotone).
 func (h *Heaper) closedness(arr *Term, f Family, ctr string) {
 	if f.Leaf.T == nil {
+		if strings.HasPrefix(f.Name, "map.") && strings.HasSuffix(f.Name, ".len") {
+			// the number of entries of a map is non-negative and bounded
+			sel := fmt.Sprintf("(select %s r!c)", arr.S)
+			h.vc.assertGlobalOrLine(fmt.Sprintf("(forall ((r!c Int)) (! (and (bvsle (_ bv0 64) %s) (bvslt %s (_ bv1099511627776 64))) :pattern (%s)))", sel, sel, sel), ctr == "ctr0")
+		}
 		return
 	}
 	if f.KeySort != "" && kindOf(f.Leaf.T) == KSlice {
